@@ -152,10 +152,11 @@ def rule_lc_toggle(ctx: Ctx) -> None:
     ok = False
     if len(loop.body) == 1 and isinstance(loop.body[0], ast.If):
         i = loop.body[0]
-        t = i.test
+        from ..chains import positive
+        t, negated = positive(i.test)
         if isinstance(t, ast.Call) and call_attr(t) == "has_edge" and [norm(x) for x in t.args] == [a, b] \
                 and len(i.body) == 1 and len(i.orelse) == 1:
-            rb, ab = i.body[0], i.orelse[0]
+            rb, ab = (i.orelse[0], i.body[0]) if negated else (i.body[0], i.orelse[0])
             if isinstance(rb, ast.Expr) and isinstance(ab, ast.Expr) and isinstance(rb.value, ast.Call) and isinstance(ab.value, ast.Call) \
                     and call_attr(rb.value) == "remove_edge" and call_attr(ab.value) == "add_edge" \
                     and [norm(x) for x in rb.value.args] == [a, b] and [norm(x) for x in ab.value.args] == [a, b] \
